@@ -43,3 +43,6 @@ CLAIMS["C04"] = ("exploration",
     "Exhaustive enumeration of all height vectors in {1,2,3}^n x all group-change patterns (n<=5 quick, n<=7 thorough) over rotating reservation/strategy configurations, plus Hypothesis-generated tables (1-3 level arbitrary key sequences incl. returning keys, all reservations, nrow 2-30); oracle from page membership of coordinate-tagged rows: contiguity, justified-breaks-only (observed fill + need vs nrow - R), forced breaks / no mixed pages, and the metamorphic prefix-stability relation. " + _EXPL,
     _READER + " Default body font with calibrated row heights so the library's estimate and the independent measurement agree by construction.",
     "property-based testing: exhaustive small-scope enumeration + Hypothesis, reference break-justification model and metamorphic prefix relation")
+CLAIMS["C05"] = ("exploration",
+    "Hypothesis-generated sorted group-key sequences (1-3 page_by levels and/or 1-2 subline_by columns, inner values reused under different outer values, divider runs, runs sized relative to the page capacity) plus an exhaustive sweep over all compositions of 8 rows x capacity 2..6; reference walk over the parsed page (presence, value, outer-before-inner order, no stranded heading, heading counts, dividers silent and lossless, one subline heading per page naming its group). " + _EXPL,
+    _READER, "property-based testing: capacity-relative group-run generator + exhaustive compositions, reference walk over independently parsed pages")
